@@ -84,3 +84,10 @@ def run(ctx) -> None:
             ctx.check(ok, "C09.N3.operand-token-class", "operand token of the instruction line regex", repr(sh.group(3)),
                       "the operand token is one run of characters excluding blank and '#' (drops <symbol> and comments, "
                       "keeps everything else)")
+    # S: decided on token templates (every instantiation at once): the normal form of each operand form of the property,
+    # the splitting of operand lists, and whole lines (branch target without its <symbol>, operand count and order)
+    from .. import shapes
+    Is = make_interp(ctx.p)
+    shapes.normal_form_rule(ctx, Is, "C09.S1.normal-form-of-every-listed-operand-form")
+    shapes.operand_split_rule(ctx, Is, "C09.S2.commas-split-between-operands-only")
+    shapes.line_record_rule(ctx, Is, "C09.S3.line-to-record")
